@@ -39,15 +39,25 @@ fn prev_program(rng: &mut Rng, step: usize, conflict: bool, cross: Option<(Strin
     let p0 = || GExpr::var("prev0");
     let p1 = || GExpr::var("prev1");
     let mut s: Vec<GStmt> = Vec::new();
-    s.push(stmt(StmtKind::Node(GVar::u("fresh"))));
-    s.push(stmt(StmtKind::AttrNode(GExpr::var("fresh"), vec![a("step", GExpr::Int(step as u32)), a("kind", GExpr::str("fresh"))])));
+    // one step in four binds no variable at all: everything it does, it does to nodes that came
+    // in from outside
+    let bare = rng.chance(1, 4);
+    if !bare {
+        s.push(stmt(StmtKind::Node(GVar::u("fresh"))));
+        s.push(stmt(StmtKind::AttrNode(GExpr::var("fresh"), vec![a("step", GExpr::Int(step as u32)), a("kind", GExpr::str("fresh"))])));
+    }
     // edges touching old nodes; prev0 -> prev1 may exist already (with attributes)
     s.push(stmt(StmtKind::Edge(p0(), p1())));
     if rng.chance(1, 2) {
         s.push(stmt(StmtKind::Edge(p0(), p1())));
     }
-    s.push(stmt(StmtKind::Edge(p0(), GExpr::var("fresh"))));
-    s.push(stmt(StmtKind::Edge(GExpr::var("fresh"), p1())));
+    if !bare {
+        s.push(stmt(StmtKind::Edge(p0(), GExpr::var("fresh"))));
+        s.push(stmt(StmtKind::Edge(GExpr::var("fresh"), p1())));
+    } else {
+        s.push(stmt(StmtKind::Edge(p1(), p0())));
+        s.push(stmt(StmtKind::AttrEdge(p1(), p0(), vec![a(&format!("back{}", step), GExpr::Int(step as u32))])));
+    }
     s.push(stmt(StmtKind::AttrEdge(p0(), p1(), vec![a(&format!("w{}", step), GExpr::Int(step as u32))])));
     // the same attribute again with an equal value is accepted
     if rng.chance(1, 2) {
@@ -65,7 +75,7 @@ fn prev_program(rng: &mut Rng, step: usize, conflict: bool, cross: Option<(Strin
     }
     if conflict {
         // a different value for an attribute that exists: must fail, keeping neither silently
-        match rng.below(3) {
+        match rng.below(if bare { 2 } else { 3 }) {
             0 => s.push(stmt(StmtKind::AttrNode(p0(), vec![a("constant", GExpr::str("something else"))]))),
             1 => s.push(stmt(StmtKind::AttrEdge(p0(), p1(), vec![a(&format!("w{}", step), GExpr::Int(99))]))),
             _ => s.push(stmt(StmtKind::AttrNode(GExpr::var("fresh"), vec![a("step", GExpr::Int(1000))]))),
@@ -73,7 +83,7 @@ fn prev_program(rng: &mut Rng, step: usize, conflict: bool, cross: Option<(Strin
     }
     items.push(Item::Stanza(GStanza { query: "(module) @_m".into(), pool: None, stmts: s, loc: Loc::default() }));
     // many edges into an old node (beyond the inline capacity)
-    if rng.chance(1, 2) {
+    if !bare && rng.chance(1, 2) {
         let st = vec![
             stmt(StmtKind::Node(GVar::u("n"))),
             stmt(StmtKind::AttrNode(GExpr::var("n"), vec![a("name", GExpr::call("source-text", vec![GExpr::cap("id")])), a("at", GExpr::List(vec![GExpr::call("start-row", vec![GExpr::cap("id")]), GExpr::call("start-column", vec![GExpr::cap("id")])]))])),
